@@ -20,7 +20,8 @@ from pyvc.api import (Module, Interface, Method, Iface, Inst, Int, Nat, Bool, St
                       ListOf, FixedList, Any_, EnumOf, Custom, new_opaque, assume_pred)
 from contracts.common import implies, iff
 from contracts.C10_process import (SETTINGS, CommandExecutorI, OsServicesI, FsPathI, FileI, FileCtxI, StdinCtxI,
-                                   executions, execution_results, timeout_of, environ_of, EXECUTE, _mk_hard_error)
+                                   executions, execution_results, timeout_of, environ_of, EXECUTE, _mk_hard_error,
+                                   DirFileSpaceI, ContentsI, StringSourceI, STRING_SOURCE)
 
 from exactly_lib.test_case.hard_error import HardErrorException
 from exactly_lib.util.process_execution.execution_elements import ProcessExecutionSettings
@@ -167,11 +168,6 @@ DIR_W_RESULT_FILES = Inst(DirWithResultFiles, _directory=Iface(FsPathI))
 
 class TextReaderI(Interface):
     methods = {'read': Method(returns=Str)}
-
-
-class DirFileSpaceI(Interface):
-    methods = {'new_path': Method(returns=Iface(FsPathI)),
-               'new_path_as_existing_dir': Method(returns=Iface(FsPathI))}
 
 
 STORES_RESULT = Inst(store_result_in_files.ProcessorThatStoresResultInFilesInDir,
@@ -570,19 +566,7 @@ from exactly_lib.impls.types.string_transformer.impl.run_program import sdv as r
 P_TBP = 'exactly_lib.impls.types.string_transformer.impl.sources.transformed_by_program'
 
 
-class ContentsI(Interface):
-    """StringSourceContents: only its file is used by the sites"""
-    attrs = {'as_file': Iface(FsPathI), 'tmp_file_space': DIR_FILE_SPACE}
-    methods = {'write_to': Method()}
-
-
-class StringSourceI(Interface):
-    """a StringSource primitive (its contents are C14's subject)"""
-    methods = {'contents': Method(returns=Iface(ContentsI)), 'structure': Method(returns=Any_),
-               'new_structure_builder': Method(returns=Any_)}
-
-
-STRING_SOURCE = Iface(StringSourceI)
+# ContentsI / StringSourceI / STRING_SOURCE: shared with C10 (contracts.C10_process)
 
 TRANSFORMATION_WRITER = Inst(tbp._TransformationWriter, environment=APP_ENV, _ignore_exit_code=Bool,
                              transformer=A_COMMAND)
@@ -600,11 +584,9 @@ M.contract('exactly_lib.impls.types.string_transformer.impl.sources.transformed_
            'transformed_string_source_from_writer', trusted=True, event=FROM_WRITER,
            params=dict(write=Any_, model=Any_, get_transformer_structure=Any_, mem_buff_size=Any_, file_name=Any_),
            returns=STRING_SOURCE)
-M.contract('exactly_lib.type_val_prims.string_source.impls.concat:string_source', trusted=True,
-           params=dict(parts=Any_, mem_buff_size=Any_, file_name=Any_), returns=STRING_SOURCE)
-M.trust('transformed_string_sources.transformed_string_source_from_writer(write, model, ...) and '
-        'string_source.impls.concat.string_source(parts, ...) build lazy string sources; they start no process '
-        'themselves: a transformed source calls the `write` callable it was given when its contents are read (C14)')
+M.trust('transformed_string_sources.transformed_string_source_from_writer(write, model, ...) builds a lazy string '
+        'source; it starts no process itself: a transformed source calls the `write` callable it was given when '
+        'its contents are read (C14).  string_source.impls.concat.string_source: model in contracts.C10_process')
 
 
 def writers_given(trace):
